@@ -53,6 +53,9 @@ type Arg struct {
 	// Front: the verb goes before the literal text instead of after it.
 	// Glue: no separator between this verb and what precedes it.
 	Front, Glue bool
+	// NoVerb: the argument is passed although the format has no verb for it
+	// (fmt appends it as %!(EXTRA ...)); an error argument is attached all the same.
+	NoVerb bool
 }
 
 // Tag is one context tag.
